@@ -314,10 +314,34 @@ def run_any_recipient_cell(cell) -> tuple:
         return "must-reject", None
 
 
+def run_multi_signature_cell(cell) -> tuple:
+    """General JSON JWS with two valid HMAC signatures under one key: one names an allowed algorithm, the other a name outside the
+    allow-list (or outside the recommended set when no list is given). Every signature has to be checked, so the call must fail: a
+    signature whose algorithm is not allowed is never skipped over."""
+    from joserfc import jws, rfc7797
+    k = K()
+    name, L, order, style, entry = cell["names"]["alg"], cell["L"], cell["order"], cell["style"], cell["entry"]
+    good_alg = "HS256" if (L is None or "HS256" in L) else L[0]
+    payload = b"payload"
+    real = name if name in ("HS256", "HS384", "HS512") else "HS256"
+    sig_good = rjws.make_json_signature(json.dumps({"alg": good_alg}).encode(), None, payload, good_alg, k["ref"]["oct64"])
+    sig_bad = rjws.make_json_signature(json.dumps({"alg": name}).encode(), None, payload, real, k["ref"]["oct64"])
+    tok = {"payload": rb.encode(payload), "signatures": [sig_good, sig_bad] if order == "bad-last" else [sig_bad, sig_good]}
+    kw = {} if style == "default" else {"algorithms": L} if style == "algorithms" else {"registry": jws.JWSRegistry(algorithms=L)}
+    try:
+        (rfc7797 if entry == "rfc7797-general-two" else jws).deserialize_json(tok, k["obj"]["oct64"], **kw)
+        return "must-reject", ("C05:disallowed-algorithm-used:jws:verify:general-two-signatures",
+                               f"one of two signatures names {name!r}, allowed are {L!r} (None = the recommended set): deserialize_json returned the object", cell)
+    except Exception:
+        return "must-reject", None
+
+
 def run_cell(cell) -> tuple:
     kind, op, entry, names, style, L = cell["kind"], cell["op"], cell["entry"], cell["names"], cell["style"], cell["L"]
     if kind == "jwe-any":
         return run_any_recipient_cell(cell)
+    if kind == "jws-multi":
+        return run_multi_signature_cell(cell)
     if kind == "jws":
         out = jws_call(op, entry, names["alg"], style, L)
     else:
@@ -337,6 +361,12 @@ def matrix(part):
                             if isinstance(name, (list, dict)) and op == "verify" and False:
                                 continue
                             yield {"kind": "jws", "op": op, "entry": entry, "names": {"alg": name}, "style": style, "L": L, "shape": shape}
+        for name, L in [("HS384", None), ("HS512", None), ("none", None), ("FOO", None), ("HS512", ["HS256"]), ("HS384", ["HS256", "HS512"]), ("none", ["HS256"]),
+                        ("hs256", ["HS256"]), ("", ["HS256"]), ("HS256", ["HS512"]), ("HS256", ["HS384", "ES256"])]:
+            for order in ("bad-last", "bad-first"):
+                for style in (["default"] if L is None else ["algorithms", "registry"]):
+                    for entry in ("general-two", "rfc7797-general-two"):
+                        yield {"kind": "jws-multi", "op": "verify", "entry": entry, "names": {"alg": name}, "style": style, "L": L, "shape": "two-signatures", "order": order}
     else:
         base = {"alg": "A128KW", "enc": "A128GCM", "zip": None}
         universe = jweplan.ALL_NAMES
